@@ -3,16 +3,17 @@
 (the agent never sees anything under /verif; the list is pasted into the prompt file under /tmp)."""
 import json, sys, glob, os
 pid, wt = sys.argv[1], sys.argv[2]
+mode = sys.argv[3] if len(sys.argv) > 3 else 'break'
 props = {}
 for l in open('/verif/properties.jsonl'):
     d = json.loads(l); props[d['id']] = d
-tmpl = open('/verif/docs/agent_prompt_template.txt').read()
+tmpl = open('/verif/docs/agent_prompt_template.txt' if mode == 'break' else '/verif/docs/agent_refactor_template.txt').read()
 tried = []
 for mp in sorted(glob.glob('/verif/seeded/%s-m*/meta.json' % pid)):
     m = json.load(open(mp))
     tried.append('- ' + ' '.join((m.get('summary') or '').split())[:260])
 t = tmpl.replace('{WT}', wt).replace('{PID}', pid).replace('{TITLE}', props[pid]['title']).replace('{STATEMENT}', props[pid]['statement']).replace('{TRIED}', '\n'.join(tried) or '- (nothing yet)')
-out = '/tmp/agent_prompts/N_%s.txt' % pid
+out = '/tmp/agent_prompts/%s_%s.txt' % ('N' if mode == 'break' else 'R', pid)
 os.makedirs('/tmp/agent_prompts', exist_ok=True)
 open(out, 'w').write(t)
 print(out)
